@@ -249,12 +249,12 @@ theorem C05_converge (F : BodyFn) (P : Project) (cfg cfg' : Cfg) (g : G) (marks 
   rw [hw', hl']
   exact ⟨this.1, this.2⟩
 
-/-! ### The limit: an edit between the kill and the recovery build (finding F20)
+/-! ### The limit: an edit between the kill and the recovery build (finding F50)
 
 Read literally ("no later build …"), the property also covers builds that follow *edits made after the kill*. At that strength
 it is **false of the current code**: a kill between two row commits of a task leaves a row set that mixes two snapshots, and a
 later edit that puts one input back can make every row match although the product belongs to neither snapshot's inputs.
-Witness (replayed on the real code, `findings/F20.json`): a task that writes whether its two inputs agree; both inputs are
+Witness (replayed on the real code, `findings/F50.json`): a task that writes whether its two inputs agree; both inputs are
 edited from `0` to `1` (the product stays the same), the rebuild is killed after the first row commit, the second input is put
 back to `0`: all four rows match, the task is reported unchanged, the product still says "agree". -/
 
@@ -266,13 +266,13 @@ def C05_edit_after_kill_full : Prop :=
 
 theorem C05_edit_after_kill_full_false : ¬ C05_edit_after_kill_full := by
   intro h
-  have hinv := h f20F f20P {} f20W f20G [] [0] 2 11 0 (by rfl) f20_wfspec f20_rc (by decide)
-  have hF := hinv f20T (by simp [f20P]) f20_rowsMatch (20, 0) (by decide)
+  have hinv := h f50F f50P {} f50W f50G [] [0] 2 11 0 (by rfl) f50_wfspec f50_rc (by decide)
+  have hF := hinv f50T (by simp [f50P]) f50_rowsMatch (20, 0) (by decide)
   exact absurd hF (by decide)
 
 /-- **C05_edit_after_kill_partial.** What is true with edits: if the kill did not cut a row set in two — the database left
 behind is row-consistent, e.g. because the kill fell outside `update_states_in_database`, or because all rows of a task are
-committed in one transaction (the repair proposed in `fixes/F20.diff`) — then `Inv` holds for *every* content of the files, so
+committed in one transaction (the repair proposed in `fixes/F50.diff`) — then `Inv` holds for *every* content of the files, so
 no sequence of later edits can produce a stale "unchanged". -/
 theorem C05_edit_after_kill_partial (F : BodyFn) (P : Project) (g : G) (hwf : WF P g) (w : World) (hrc : RC F P g w.db)
     (fs' : FS) : Inv F P g { w with fs := fs' } :=
@@ -357,9 +357,9 @@ example : ∃ r : Result,
     c05W (C05_rc_init _ _ _) [] 0 c05T0 c05So _ _ _ rfl (by intro rep h; cases h) rfl rfl 4 rfl rfl rfl [0, 1] _ rfl
     (by decide) (by decide)).1
 
-/-- the F20 witness in the model: after the kill and the edit, the recovery build reports the task unchanged and leaves the
+/-- the F50 witness in the model: after the kill and the edit, the recovery build reports the task unchanged and leaves the
 stale product (`0` = "agree") although the inputs now differ (`1`, `0`) -/
-example : (build f20F f20P {} (applyStep (crashAt f20F f20P {} f20W [0] 2) (.write 11 0)) [0]).toOption.map
+example : (build f50F f50P {} (applyStep (crashAt f50F f50P {} f50W [0] 2) (.write 11 0)) [0]).toOption.map
     (fun r => (r.reports, r.log, lookup r.w.fs 20)) = some ([(0, .skipUnchanged)], [], some 0) := by decide
 
 /-- garbage in the memo file loads as the empty memo -/
